@@ -201,7 +201,8 @@ def check_scan(chk, rep0, repo, pre="", only=None):
     ok = len(stores) == 1 and after is not None and stores[0].value == after and stores[0].loops == li.loops
     rep.fn("SCAN-store", fn, "the winning label is stored on the query node of the same loop index", ok,
            f"{len(stores)} store(s) to the query node's predicted_label", line=per.line)
-    rets = [e for e in w.events if e.kind == "return" and e.fn is w.entry]
+    from ..rules_premise import main_returns
+    rets = main_returns(w)
     okr = False
     if len(rets) == 1 and rets[0].value[0] == "listcomp":
         lc = rets[0].value
